@@ -135,7 +135,7 @@ func (e *Engine) corpusChecks(id, tier string) []fdResult {
 		"C10": {"kit.NewJApiFromFile/bounded/corpus-paste-expansion#1", "replacing every PASTE of a corpus document by the re-indented body of its MACRO and deleting the MACRO blocks gives the same catalog bytes; undefined and pasted cyclic macros are errors"},
 		"C19": {"kit.NewJApiFromFile/bounded/corpus-banned-kinds#1", "for every accepted corpus document and each of the 31 directive kinds: banning a kind that occurs is rejected with the not-allowed error on an occurrence; banning a kind that does not occur gives the same catalog bytes"},
 	}
-	goals["C14"] = [2]string{"kit.NewJapi/bounded/include-arrangements#1", "54 INCLUDE arrangements on disk (INCLUDE in 11 positions where a directive may start - root, URL, method, response, Request, inside their parentheses, after a Description text, in a MACRO body - with an existing file and with a refused parameter; parameters with '..', '.', an absolute path, a backslash or nothing are refused at the INCLUDE although the file they name exists; a missing file and a directory are errors at the INCLUDE; cycles not through the root are recursion errors; several files, one file several times and names relative to the including file are accepted and resolved against the right directory)"}
+	goals["C14"] = [2]string{"kit.NewJapi/bounded/include-arrangements#1", "56 INCLUDE arrangements on disk (INCLUDE in 11 positions where a directive may start - root, URL, method, response, Request, inside their parentheses, after a Description text, in a MACRO body - with an existing file and with a refused parameter; parameters with '..', '.', an absolute path, a backslash or nothing are refused at the INCLUDE although the file they name exists; a missing file and a directory are errors at the INCLUDE; cycles not through the root are recursion errors; several files, one file several times and names relative to the including file are accepted and resolved against the right directory)"}
 	g, ok := goals[id]
 	if !ok {
 		return nil
@@ -148,6 +148,18 @@ func (e *Engine) corpusChecks(id, tier string) []fdResult {
 	out := runKitReplay(e, replayCorpusSrc, "zz_govc_corpus_test.go", "TestGovcCorpusOracle", "corpus oracle "+id+" on the real builder (package kit):")
 	res := []fdResult{{Name: g[0], Props: []string{id}, Goal: "BOUNDED (built-in documents, 400 generated documents and /repo/testdata): " + g[1] + " (bounded sample, not a proof)",
 		OK: strings.Contains(out, "DONE tried=") && !strings.Contains(out, "REPRODUCED input"), Detail: out}}
+	if id == "C06" {
+		// a recorded document whose error depends on a map range inside the schema library (known finding D36)
+		var tc []string
+		for _, l := range strings.Split(out, "\n") {
+			if strings.HasPrefix(l, "TYPECYCLE ") {
+				tc = append(tc, l)
+			}
+		}
+		res = append(res, fdResult{Name: "kit.NewJApiFromFile/bounded/type-cycle-error-choice#1", Props: []string{id},
+			Goal: "BOUNDED (one document, 61 builds): a cycle of three types two of which violate a rule is rejected with the same error every time (bounded sample, not a proof)",
+			OK:   strings.Contains(out, "DONE tried=") && len(tc) == 0, Detail: strings.Join(tc, "\n") + "\n"})
+	}
 	if id == "C08" {
 		// two recorded documents whose error changes with CRLF line ends (known finding D31): an obligation of its own
 		var kn []string
